@@ -7,7 +7,7 @@ import random, time
 from explore import Job, run_jobs, Disagreement, impl_step, replay_with_monitor, shrink
 import wblib
 from wblib import (DecAll, DecHi, DecSet, DecRegion, make_shared, make_xbar, make_p2p, make_arbiter, make_decoder,
-                   make_socbus,
+                   make_socbus, make_socglue, GlueBuild,
                    small_alphabet,
                    m_req, s_ack, s_silent, split_outs)
 
@@ -150,8 +150,9 @@ def jobs(tier, seed=0):
                         name="Crossbar 2x2 adr_widths=[1, 2] reg a1"), 8000)
     A(lambda: make_shared(3, MAPS[3][0][1], adr_widths=[1, 2, 2], alphabet=small_alphabet(3, 3, adr_widths=[1, 2, 2]),
                           name="Shared 3x3 adr_widths=[1, 2, 2] a1"), 9000)
-    A(lambda: make_shared(2, OVERLAP, register=True, timeout=2, alphabet=_alpha(2, 2, 1), name="Shared 2x2 overlap reg to=2 a1"))
-    A(lambda: make_xbar(2, OVERLAP, register=False, alphabet=_alpha(2, 2, 1), name="Crossbar 2x2 overlap a1"))
+    A(lambda: make_shared(2, OVERLAP, register=True, timeout=2, alphabet=_alpha(2, 2, 1), name="Shared 2x2 overlap reg to=2 a1",
+                          exclusive=False))
+    A(lambda: make_xbar(2, OVERLAP, register=False, alphabet=_alpha(2, 2, 1), name="Crossbar 2x2 overlap a1", exclusive=False))
     A(lambda: make_shared(2, MAPS[2][0][1], timeout=0, alphabet=_alpha(2, 2, 1), name="Shared 2x2 cover to=0 a1"))
     A(lambda: make_shared(2, MAPS[2][0][1], timeout=3, alphabet=_alpha(2, 2, 1), name="Shared 2x2 cover to=3 a1"))
 
@@ -228,11 +229,45 @@ def jobs(tier, seed=0):
                 dict(n=1, regions=[(0x1000, 0x1000)], timeout=3, register=False)]
     for kw in soc:
         B(lambda kw=kw: make_socbus(**kw))
+    # whole build scripts (non-power-of-two sizes, auto-allocated origins, IO/uncached and linker regions mixed, 2-4
+    # slaves); the protocol environment also visits every region boundary, rounding gap and unmapped neighbour
+    for script, kw in _GLUE_B if quick else _GLUE_B + _GLUE_B_THOROUGH:
+        B(lambda script=script, kw=kw: make_socglue(script, **kw), cycles=None if not quick else 800)
     # random walks over the small alphabets (3x3 registered crossbar is too large for exhaustive exploration)
     B(lambda: _walker(make_xbar(3, MAPS[3][0][1], register=True, alphabet=_alpha(3, 3, 1), name="Crossbar 3x3 cover reg walk")),
       cycles=4000 if quick else 60000)
     # longest jobs first (the pool hands jobs out in list order)
     return sorted(J, key=lambda job: -getattr(job, "cost", 0))
+
+
+_M = ("M",)
+
+
+def _S(origin, size, cached=1, linker=0):
+    return ("S", origin, size, cached, linker)
+
+
+def _R(origin, size, cached=1, linker=0):
+    return ("R", origin, size, cached, linker)
+
+
+def _I(origin, size):
+    return ("I", origin, size)
+
+
+# build scripts run as mode-B jobs (the specification expects all of them to be accepted)
+_GLUE_B = [
+    ([_M, _M, _S(0, 0x3000), _S(None, 0x1000), _S(None, 0x1800)], dict(timeout=8)),
+    ([_S(None, 0x1000), _M, _S(0x4000, 0x3000), _M, _M, _S(None, 0x5000), _S(0x20000, 0x600)],
+     dict(interconnect="crossbar", register=False)),
+    ([_M, _I(0x80000000, 0x20000), _R(0, 0x20000, 1, 1), _S(0, 0x1800), _S(None, 0x600, 0), _S(0x80010000, 0x3000, 0),
+      _M, _S(None, 0x800)], dict(timeout=16, register=False)),
+]
+_GLUE_B_THOROUGH = [
+    ([_M, _S(0x10000000, 0x5000), _S(0x10008000, 0x2400), _S(None, 0x3000), _S(None, 0x3000)],
+     dict(interconnect="crossbar", register=True)),
+    ([_M, _M, _M, _S(None, 0x600), _S(None, 0x600), _S(None, 0x1800), _S(None, 0x100)], dict(timeout=None)),
+]
 
 
 def _cost(kind, n, m, reg, to, level):
@@ -344,6 +379,285 @@ def _region_decoder_cases(ctx):
     return dis
 
 
+# ---------------------------------------------------------------------------------------------------------
+# address-map glue: check_regions_overlap, add_region/alloc_region/add_slave histories, do_finalize
+
+_SIZES = (0x1000, 0x3000, 0x1800, 0x600, 0x800, 0x5000, 0x2400, 0x10000, 0x400, 0xc00)
+
+
+def _eval_decoder(origin, size, word, data_width=32, address_width=32):
+    """`SoCRegion(origin, size).decoder(bus)` of the real code evaluated at one word address (None: SoCError)."""
+    import sys
+    from migen import Signal
+    from litex.soc.integration import soc as S
+    from litex.soc.interconnect import wishbone
+    from litex.gen.sim.core import Evaluator
+    bus = wishbone.Interface(data_width=data_width, address_width=address_width)
+    a = Signal(bus.adr_width)
+    ev = Evaluator({}, {})
+    ev.signal_values[a] = word
+    stderr = sys.stderr
+    try:
+        r = S.SoCRegion(origin=origin, size=size).decoder(bus)(a)
+    except S.SoCError:
+        return None
+    finally:
+        sys.stderr = stderr
+    return 1 if r is True else int(bool(ev.eval(r)))
+
+
+def _placed_near(rng, placed, size):
+    """An origin next to an already placed region: at its declared end (the rounding gap of a non-power-of-two
+    size), in the last slot of its gap, right after / right before its decoded window, or on it."""
+    o, sz = rng.choice(placed)
+    p2, q2 = 1 << (sz - 1).bit_length(), 1 << (size - 1).bit_length()
+    return max(0, rng.choice((o + sz, o + p2 - q2, o + p2, o - q2, o, o + sz - size, o + p2 - 1, o + (sz + p2) // 2 // q2 * q2,
+                              o + p2, o - q2, o + 2 * p2, o + p2 + q2, o - 2 * q2, (o + p2 + q2 - 1) // q2 * q2)))
+
+
+def _random_region_list(rng):
+    k = rng.randint(2, 5)
+    placed, out = [], []
+    base = rng.choice((0, 0x10000000, 0x80000000, 0x4000))
+    for _ in range(k):
+        size = rng.choice(_SIZES)
+        if placed and rng.random() < 0.8:
+            origin = _placed_near(rng, placed, size)
+        else:
+            origin = base + rng.randrange(0, 16) * rng.choice((0x1000, 0x800, 0x4000))
+        placed.append((origin, size))
+        out.append((origin, size, 1 if rng.random() < 0.12 else 0))
+    return out
+
+
+def _overlap_cases(ctx):
+    """`SoCBusHandler.check_regions_overlap` (real) against `checkRegionsOverlap` (Lean) on random region lists in
+    both registration orders and with both `check_linker` values, plus the property oracle: a list that the real
+    function accepts must not contain two non-linker regions whose decoded windows share an address."""
+    from litex.soc.integration import soc as S
+    rng = ctx.rng
+    bus = S.SoCBusHandler(standard="wishbone", data_width=32, address_width=32)
+    fixed = [[(0, 0x3000, 0), (0x3000, 0x1000, 0)], [(0, 0x3000, 0), (0x4000, 0x1000, 0)],
+             [(0x10000, 0x1800, 0), (0x11800, 0x800, 0), (0x12000, 0x600, 0)], [(0, 0x1000, 1), (0, 0x1000, 0)],
+             [(0x2000, 0x600, 0), (0x2600, 0x100, 0)], [(0x8000, 0x5000, 0), (0xe000, 0x2000, 0), (0x10000, 0x2400, 0)]]
+    lists = []
+    for l in fixed + [_random_region_list(rng) for _ in range(150 if ctx.tier == "quick" else 1500)]:
+        lists.append(l)
+        lists.append(l[::-1])
+        if len(l) > 2:
+            l2 = list(l)
+            rng.shuffle(l2)
+            lists.append(l2)
+    lines, got, dis = [], [], []
+    nontriv = 0
+    for l in lists:
+        for cl in (0, 1):
+            regs = {"r%d" % i: S.SoCRegion(origin=o, size=sz, linker=bool(lk)) for i, (o, sz, lk) in enumerate(l)}
+            r = bus.check_regions_overlap(regs, check_linker=bool(cl))
+            res = "none" if r is None else "%d %d" % (int(r[0][1:]), int(r[1][1:]))
+            lines.append("overlap %d %s" % (cl, " ".join("%d:%d:%d" % t for t in l)))
+            got.append((res, l, cl))
+            nontriv += r is not None
+            ctx.cov.count("overlap_reported" if r is not None else "overlap_accepted")
+            if r is None and not cl and not dis:
+                # property oracle (model independent): accepted => pairwise disjoint windows of non-linker regions
+                for a in range(len(l)):
+                    for b in range(a + 1, len(l)):
+                        (oa, sa, la), (ob, sb, lb) = l[a], l[b]
+                        pa, pb = 1 << (sa - 1).bit_length(), 1 << (sb - 1).bit_length()
+                        lo, hi = max(oa, ob), min(oa + pa, ob + pb)
+                        if la or lb or lo >= hi:
+                            continue
+                        word = lo >> 2
+                        dis.append({"instance": "SoCBusHandler.check_regions_overlap",
+                                    "kind": "monitor:check_regions_overlap accepts regions whose decoders both match an address",
+                                    "regions": [list(t) for t in l], "pair": [a, b], "byte_address": lo,
+                                    "windows": ["[%#x, %#x)" % (oa, oa + pa), "[%#x, %#x)" % (ob, ob + pb)],
+                                    "decoders_at_word_%#x" % word: [_eval_decoder(oa, sa, word), _eval_decoder(ob, sb, word)]})
+    res = ctx.lean.call_batch(lines)
+    for r, (g, l, cl) in zip(res, got):
+        if r.strip() != g:
+            dis.append({"instance": "SoCBusHandler.check_regions_overlap", "kind": "correspondence",
+                        "case": {"regions": [list(t) for t in l], "check_linker": cl}, "impl": g, "model": r.strip()})
+            if len(dis) >= 4:
+                break
+    ctx.cov.add_cases("SoCBusHandler.check_regions_overlap vs checkRegionsOverlap", len(lines), nontriv, exhaustive=False)
+    return dis[:4]
+
+
+def _glue_scripts(rng, tier):
+    """Build scripts for real SoCBusHandlers: non-power-of-two sizes, both registration orders, explicit and
+    auto-allocated origins, origins in / at the end of / after the rounding gap, IO + uncached and linker regions
+    mixed, 2-4 slaves, 1-3 masters, shared and crossbar, registered or not."""
+    out = []
+    variants = [dict(timeout=8), dict(interconnect="crossbar", register=False), dict(register=False, timeout=3),
+                dict(interconnect="crossbar")]
+    v = 0
+    for base in (0, 0x40000000):
+        for sz, xs in ((0x3000, 0x1000), (0x1800, 0x800), (0x5000, 0x400)):
+            p2 = 1 << (sz - 1).bit_length()
+            for o2 in (base + sz, base + p2 - xs, base + p2, None):
+                if base and o2 is None and sz != 0x3000:
+                    continue
+                A, X = _S(base, sz), _S(o2, xs)
+                for order in ((A, X), (X, A)):
+                    out.append(([_M, _M] + list(order), variants[v % len(variants)]))
+                    v += 1
+    out += [
+        ([_M, _S(None, 0x3000), _S(None, 0x1000), _S(None, 0x1800), _S(None, 0x800)], dict(timeout=8)),
+        ([_S(None, 0x800), _S(None, 0x1800), _M, _S(None, 0x1000), _S(None, 0x3000), _M], dict(interconnect="crossbar")),
+        ([_M, _I(0x80000000, 0x20000), _S(0, 0x3000), _S(None, 0x600, 0), _S(None, 0x1000), _S(0x80001000, 0x1800, 0)],
+         dict(timeout=8, register=False)),
+        ([_M, _M, _I(0x80000000, 0x10000), _S(0x80000000, 0x3000, 0), _S(0x80003000, 0x1000, 0)], dict(timeout=8)),
+        ([_M, _R(0, 0x10000, 1, 1), _S(0, 0x3000), _S(None, 0x1000), _M, _S(0x8000, 0x1800)], dict(interconnect="crossbar")),
+        ([_M, _M, _R(0x3000, 0x1000), _S(0, 0x3000), _S(None, 0x1000)], dict(timeout=8)),
+        ([_M, _M, _S(0, 0x3000), _R(None, 0x1000), _S(None, 0x1000)], dict(timeout=8)),
+        ([_M, _S(0x1000, 0x3000), _S(0, 0x1000)], dict(timeout=8)),                       # unaligned origin: finalize
+        ([_M, _M, _S(0, 0x1000, 1, 1), _S(0, 0x1000)], dict(timeout=8)),                 # linker slave region (R10 off)
+        ([_M, _S(0x10000000, 0x3000)], dict(timeout=8)),
+        ([_M, _S(0, 0x3000), _S(0x3000, 0x1000)], dict(timeout=8)),
+    ]
+    for _ in range(14 if tier == "quick" else 150):
+        script = [_M] * rng.randint(1, 3)
+        placed = []
+        has_io = rng.random() < 0.4
+        if has_io:
+            script.append(_I(0x80000000, 0x40000))
+        for _j in range(rng.randint(2, 4)):
+            size = rng.choice(_SIZES)
+            unc = has_io and rng.random() < 0.4
+            r = rng.random()
+            if r < 0.4:
+                origin = None
+            elif placed and r < 0.85:
+                origin = _placed_near(rng, placed, size)
+            else:
+                origin = (0x80000000 if unc else 0) + rng.randrange(0, 8) * 0x4000
+            if unc and origin is not None and origin < 0x80000000:
+                origin += 0x80000000
+            if origin is not None:
+                placed.append((origin, size))
+            op = (_S if rng.random() < 0.85 else _R)(origin, size, 0 if unc else 1, 1 if rng.random() < 0.05 else 0)
+            script.insert(rng.randint(0, len(script)) if rng.random() < 0.3 and not has_io else len(script), op)
+        out.append((script, variants[rng.randrange(len(variants))]))
+    return out
+
+
+class _SweepEnv:
+    """Directed generator: every boundary word address of the instance is requested by one master (masters take
+    turns) for two cycles; in the second cycle every slave that is presented the strobe acknowledges; one idle
+    cycle follows.  3 cycles per address."""
+    def __init__(self, inst):
+        self.inst = inst
+        self.words = list(inst.adr_pool_extra)
+
+    def next_letter(self, rng, t, last):
+        inst = self.inst
+        n, m = inst.n, inst.m
+        k, phase = divmod(t, 3)
+        w = self.words[k % len(self.words)]
+        i = k % n
+        parts = []
+        for q in range(n):
+            if q == i and phase < 2:
+                parts.append(m_req(w, we=k & 1, dat_w=(0xd0 + q) << 8 | (k & 0xff), sel=0xf, tag=q & 3))
+            else:
+                parts.append(wblib.m_idle(tag=q & 3, adr=w))
+        if phase == 1:
+            seen = inst.peek(parts)
+            for j in range(m):
+                parts.append(s_ack(0xa0 + j) if (seen[j][0] and seen[j][1]) else s_silent(0x50 + j))
+        else:
+            parts += [s_silent(0x50 + j) for j in range(m)]
+        import itertools
+        return tuple(itertools.chain.from_iterable(parts))
+
+
+def _glue_demo(gb, witness):
+    """Bus-level demonstration of an overlapping accepted map: drive the shared address and list who sees it."""
+    try:
+        inst = gb.fabric()
+        word = witness["byte_address"] >> gb.sh
+        seen_by = set()
+        for t in range(3):
+            letter = m_req(word, sel=0xf) + wblib.m_idle() * (inst.n - 1) + s_silent(0) * inst.m
+            outs = impl_step(inst, letter)
+            to_s = split_outs(outs, inst.n, inst.m)[0]
+            seen_by |= {j for j in range(inst.m) if to_s[j][0] and to_s[j][1]}
+        return {"word_address": word, "slaves_presented_the_cycle": sorted(seen_by)}
+    except Exception as e:      # noqa: the demonstration is optional, the witness stands without it
+        return {"demo_failed": repr(e)}
+
+
+def _glue_one(ctx, script, kw, model_answer):
+    """One build script on the real SoCBusHandler: outcome vs the Lean model's, specification oracle on the accepted
+    map, directed boundary sweep of the finalized bus in lock step with the model and with the monitor armed."""
+    from explore import cosim
+    from leanproc import LeanError
+    gb = GlueBuild(script, **kw)
+    spec = {"kind": "socglue", "script": [list(op) for op in script], "kw": kw}
+    dis = []
+    got = gb.summary()
+    ctx.cov.count("glue_" + got.split()[0] + ("_" + gb.topology if gb.verdict == "ok" else ""))
+    if got != model_answer.strip():
+        dis.append({"instance": gb.describe(), "kind": "correspondence", "make": spec, "impl": got, "model": model_answer.strip()})
+    if gb.verdict != "ok":
+        return dis, 0
+    w = gb.overlap_witness()
+    if w is not None:
+        w.update(_glue_demo(GlueBuild(script, **kw), w) if gb.n else {})
+        dis.append(dict(w, instance=gb.describe(), make=spec,
+                        kind="monitor:SoCBusHandler accepted an address map in which two slaves' decoders match the same address",
+                        accepted_regions=["%#x+%#x" % r for r in gb.slave_regions]))
+    if not (gb.n and gb.m):
+        return dis, 0
+    inst = gb.fabric()
+    inst.env_factory = _SweepEnv
+    cycles = 3 * len(inst.adr_pool_extra)
+    try:
+        ds = cosim(inst, ctx.lean, ctx.cov, ctx.rng, cycles, runs=1)
+    except LeanError as e:
+        # the model refuses the script (already reported above as an outcome difference): the real bus is still
+        # swept with the property monitor armed
+        ctx.lean.in_session = False
+        ds = []
+        if got == model_answer.strip():
+            dis.append({"instance": gb.describe(), "kind": "exception", "make": spec, "what": repr(e)})
+        inst = GlueBuild(script, **kw).fabric()
+        inst.env_factory = _SweepEnv
+        r = monitor_run(inst, ctx.rng, cycles)
+        if r:
+            ds.append(Disagreement(inst, r[0], len(r[0]) - 1, None, None, kind="monitor:" + r[1]))
+    for d in ds:
+        d.make_spec = spec
+    return dis + ds, cycles
+
+
+def _glue_cases(ctx):
+    scripts = _glue_scripts(ctx.rng, ctx.tier)
+    lines = ["socglue " + GlueBuild.lean_args(_Args(script, kw)) for script, kw in scripts]
+    answers = ctx.lean.call_batch(lines)
+    dis, total = [], 0
+    for (script, kw), ans in zip(scripts, answers):
+        r = _guard("SoCBusHandler build script", lambda: _glue_one(ctx, script, kw, ans), limit=120)
+        if isinstance(r, tuple):
+            dis += r[0]
+            total += r[1]
+        else:
+            dis += r
+        if len(dis) > 6:
+            break
+    ctx.cov.add_cases("SoCBusHandler build scripts vs glueBuild (+ boundary sweeps)", len(scripts), len(scripts), exhaustive=False)
+    return dis
+
+
+class _Args:
+    """Just the fields `GlueBuild.lean_args` reads (the model's answer is asked before anything is built)."""
+    def __init__(self, script, kw):
+        self.script = [tuple(op) for op in script]
+        self.args = dict(dict(interconnect="shared", register=True, timeout=8, data_width=32, address_width=32), **kw)
+
+
 def _rr_cases(ctx):
     """Migen RoundRobin (both policies) against `RoundRobin.next`, exhaustively for n <= 4 (every grant, request
     vector and ce): the shared Lean library is tied to the real primitive independently of the Wishbone fabric."""
@@ -417,6 +731,8 @@ def _corpus(ctx, all_jobs):
 
 
 def _make_from_spec(spec):
+    if spec.get("kind") == "socglue":
+        return GlueBuild(spec["script"], **spec.get("kw", {})).fabric()
     if spec.get("kind") == "socbus":
         kw = dict(spec["kw"])
         kw["regions"] = [tuple(r) for r in kw["regions"]]
@@ -493,6 +809,8 @@ def correspond(ctx):
     dis += _guard("migen RoundRobin", lambda: _rr_cases(ctx))
     dis += _guard("SoCRegion.decoder", lambda: _region_decoder_cases(ctx))
     dis += _guard("SoCBusHandler.do_finalize topology", lambda: _topology_cases(ctx))
+    dis += _guard("SoCBusHandler.check_regions_overlap", lambda: _overlap_cases(ctx))
+    dis += _guard("SoCBusHandler build scripts", lambda: _glue_cases(ctx))
     dis += _guard("selftest", lambda: _self_test(ctx))
     ctx.log("corpus, RoundRobin table, SoCRegion.decoder cases, self-test done; %d fabric jobs" % len(ctx.jobs))
     limit = 600 if ctx.tier == "quick" else 3000
@@ -711,6 +1029,31 @@ def replay(ctx, payload):
         if val != spec:
             print("VIOLATION property=%s replay=(replayed)" % ctx.prop)
             return 1
+        return 0
+    if name == "SoCBusHandler.check_regions_overlap" and "regions" in fi:
+        from litex.soc.integration import soc as S
+        l = [tuple(t) for t in fi["regions"]]
+        bus = S.SoCBusHandler(standard="wishbone", data_width=32, address_width=32)
+        r = bus.check_regions_overlap({"r%d" % i: S.SoCRegion(origin=o, size=sz, linker=bool(lk)) for i, (o, sz, lk) in enumerate(l)})
+        a, b = fi["pair"]
+        word = fi["byte_address"] >> 2
+        da, db = _eval_decoder(l[a][0], l[a][1], word), _eval_decoder(l[b][0], l[b][1], word)
+        print("check_regions_overlap(%s) -> %r; SoCRegion.decoder of regions %d and %d at word %#x: %r %r" % (
+            ["%#x+%#x%s" % (o, sz, " linker" if lk else "") for o, sz, lk in l], r, a, b, word, da, db))
+        if r is None and da and db:
+            print("VIOLATION property=%s replay=(replayed)" % ctx.prop)
+            return 1
+        return 0
+    if (fi.get("make") or {}).get("kind") == "socglue" and "trace" not in fi:
+        gb = GlueBuild(fi["make"]["script"], **fi["make"].get("kw", {}))
+        print("%s -> %s" % (gb.describe(), gb.summary()))
+        w = gb.overlap_witness() if gb.verdict == "ok" else None
+        if w is not None:
+            w.update(_glue_demo(GlueBuild(fi["make"]["script"], **fi["make"].get("kw", {})), w) if gb.n else {})
+            print("accepted map with overlapping decoder windows:", w)
+            print("VIOLATION property=%s replay=(replayed)" % ctx.prop)
+            return 1
+        print("build script no longer yields an overlapping accepted map on the current tree")
         return 0
     if not name or "trace" not in fi:
         print("replay file carries no failing trace; content:", {k: fi.get(k) for k in fi} or payload.get("disagreements", [])[:2])
